@@ -13,25 +13,36 @@
    and then reads, writes a marker (10 * id index + sender's fingerprint
    number: it says where it was stored and by whom), or expires its session.
 
+   A request may also carry a further header that names an address and that
+   any client can set (X-Forwarded-For, X-Real-IP, Forwarded, Via, Client-IP,
+   X-Client-IP), naming the victim's or another address.  The client is its
+   peer address and user agent: such a header must not enter the fingerprint.
+
    Variant "bound" is the algorithm of the code; "nofp" drops the fingerprint
-   comparison of verify_session: TLC must then find a violation of
-   SessionBound (teeth).  A variant is a generator, never an oracle.        *)
+   comparison of verify_session; "xffprint" hashes the first entry of
+   X-Forwarded-For instead of the peer address.  TLC must find a violation
+   of SessionBound for both (teeth).  A variant is a generator, never an
+   oracle.                                                                  *)
 EXTENDS SessionsOps, FiniteSets, TLC
 
-CONSTANTS Ips, Agents, MaxReq, Forged, Ops, Variant, FirstIp, FirstAgent
+CONSTANTS Ips, Agents, MaxReq, Forged, Ops, Variant, FirstIp, FirstAgent,
+          XNames,     \* further request headers a client controls and that name an address:
+                      \* subset of {"xff", "xfflist", "xrealip", "forwarded", "via", "clientip", "xclientip"}
+          MaxExtra    \* at most this many requests of a history carry such a header
 
 VARIABLES ids,    \* Seq([kind: "uuid"|"self"|"trans", base, fp]); base = own index (uuid), 0 (self), index of the source id (trans)
           store,  \* Seq(marker)
-          last,   \* <<line, number of ids before the request>> of the last request, <<>> initially
-          nreq, P, bad,
-          hist,   \* <<ip, agent, cookie kind, cookie arg, op>> per request: what a replay drives
+          last,   \* <<[sid, ck, data, ip, agent] of the last request, number of ids before it>>, <<>> initially
+          nreq, nx,   \* requests so far; of these, requests that carried an extra header
+          P, bad,
+          hist,   \* <<ip, agent, cookie kind, cookie arg, op, header name, address it names>> per request: what a replay drives
           out
 
-vars == <<ids, store, last, nreq, P, bad, hist, out>>
+vars == <<ids, store, last, nreq, nx, P, bad, hist, out>>
 
 Emit(lines) == LET r == Run(P, lines, bad) IN P' = r[1] /\ bad' = r[2] /\ out' = out \o lines
 
-Init == /\ ids = <<>> /\ store = <<>> /\ last = <<>> /\ nreq = 0 /\ P = P0 /\ bad = "" /\ hist = <<>> /\ out = <<>>
+Init == /\ ids = <<>> /\ store = <<>> /\ last = <<>> /\ nreq = 0 /\ nx = 0 /\ P = P0 /\ bad = "" /\ hist = <<>> /\ out = <<>>
 
 FpIdx(fp) == (IF fp[1] = FirstIp THEN 0 ELSE 2) + (IF fp[2] = FirstAgent THEN 1 ELSE 2)
 
@@ -53,36 +64,47 @@ Presented(fp, ck) ==
 (* verify_session: the part after '/' must be the sender's fingerprint *)
 Accepted(fp, rec) == rec.kind # "" /\ (Variant = "nofp" \/ rec.fp = fp)
 
-Request(ip, agent, ck, op) ==
+(* extra headers: <<name, address named>>, <<"none", "none">> = no such header *)
+ExtraHdrs == {<<"none", "none">>} \cup (XNames \X Ips)
+
+(* the address who() hashes: the peer's.  Variant "xffprint" prefers the first
+   entry of X-Forwarded-For, which any client can set *)
+WhoIp(ip, xh) == IF Variant = "xffprint" /\ xh[1] \in {"xff", "xfflist"} THEN xh[2] ELSE ip
+
+Request(ip, agent, ck, op, xh) ==
   /\ nreq < MaxReq
+  /\ (xh[1] # "none" => nx < MaxExtra)
   /\ (nreq = 0 => ip = FirstIp /\ agent = FirstAgent)     \* symmetry: the first client is fixed
-  /\ LET fp   == <<ip, agent>>
-         rec  == Presented(fp, ck)
+  /\ LET fp   == <<ip, agent>>                           \* the client: peer address + user agent
+         wfp  == <<WhoIp(ip, xh), agent>>                 \* what the server hashes
+         rec  == Presented(fp, ck)                        \* forged suffixes are made from the sender's own address
          pidx == IF rec.kind = "" THEN 0 ELSE Find(rec)   \* what was presented, as an assigned id
-         acc  == Accepted(fp, rec)
+         acc  == Accepted(wfp, rec)
          idx  == IF acc /\ pidx # 0 THEN pidx ELSE Len(ids) + 1
-         nrec == IF acc THEN rec ELSE [kind |-> "uuid", base |-> Len(ids) + 1, fp |-> fp]   \* uuid4: unlike any other id
+         nrec == IF acc THEN rec ELSE [kind |-> "uuid", base |-> Len(ids) + 1, fp |-> wfp]   \* uuid4: unlike any other id
          ids1 == IF idx = Len(ids) + 1 THEN Append(ids, nrec) ELSE ids
          st1  == IF idx = Len(ids) + 1 THEN Append(store, 0) ELSE store
          data == st1[idx]
          mark == 10 * idx + FpIdx(fp)      \* says where it was stored and who stored it
          line == [ip |-> ip, agent |-> agent, ck |-> pidx, fk |-> ck[1], sid |-> idx, data |-> data,
-                  w |-> IF op = "w" THEN mark ELSE 0, x |-> IF op = "x" THEN 1 ELSE 0]
+                  w |-> IF op = "w" THEN mark ELSE 0, x |-> IF op = "x" THEN 1 ELSE 0,
+                  xh |-> xh[1], xa |-> xh[2]]
      IN /\ ids' = ids1
-        /\ last' = <<line, Len(ids)>>
+        /\ last' = <<[sid |-> idx, ck |-> pidx, data |-> data, ip |-> ip, agent |-> agent], Len(ids)>>
         /\ store' = CASE op = "w" -> [st1 EXCEPT ![idx] = mark]
                       [] op = "x" -> [st1 EXCEPT ![idx] = 0]
                       [] OTHER    -> st1
         /\ Emit(<<line>>)
   /\ nreq' = nreq + 1
-  /\ hist' = Append(hist, <<ip, agent, ck[1], ck[2], op>>)
+  /\ nx' = IF xh[1] = "none" THEN nx ELSE nx + 1
+  /\ hist' = Append(hist, <<ip, agent, ck[1], ck[2], op, xh[1], xh[2]>>)
 
-Next == \E ip \in Ips, agent \in Agents, op \in Ops : \E ck \in Cookies : Request(ip, agent, ck, op)
+Next == \E ip \in Ips, agent \in Agents, op \in Ops, xh \in ExtraHdrs : \E ck \in Cookies : Request(ip, agent, ck, op, xh)
 
 Spec == Init /\ [][Next]_vars
 
 -----------------------------------------------------------------------------
-TypeOK == nreq \in 0..MaxReq /\ Len(ids) = Len(store) /\ bad \in STRING
+TypeOK == nreq \in 0..MaxReq /\ nx \in 0..MaxExtra /\ Len(ids) = Len(store) /\ bad \in STRING
 
 (* C20 as the monitor's verdict on every behaviour of the model *)
 Conforms == bad = ""
@@ -104,5 +126,5 @@ SessionBound ==
           \/ ln.sid = n0 + 1 /\ ln.data = 0
   /\ \A i, j \in 1..Len(ids) : i # j => ids[i] # ids[j]
 
-View == <<ids, store, last, nreq, P, bad>>
+View == <<ids, store, last, nreq, nx, P, bad>>
 =============================================================================
